@@ -15,6 +15,7 @@ import (
 	_ "github.com/google/pprof/verif/checks/c13"
 	_ "github.com/google/pprof/verif/checks/c14"
 	_ "github.com/google/pprof/verif/checks/c15"
+	_ "github.com/google/pprof/verif/checks/c16"
 	_ "github.com/google/pprof/verif/checks/c17"
 	"github.com/google/pprof/verif/internal/harness"
 )
